@@ -508,6 +508,7 @@ def build(spec: dict):
     if spec.get("fns"):
         rec.fns = list(spec["fns"])
     rec.dump_at = spec.get("dump_at")
+    rec.visuals = bool(spec.get("visuals", False))
     rec.dump_subprocess = bool(spec.get("dump_subprocess", False))
     # (a deep copy does not copy functions: an objective given as a lambda would keep reporting to the live recorder)
     rec.branch_copy = bool(spec.get("branch_copy", False)) and spec.get("objective_form") != "lambda"
@@ -552,6 +553,10 @@ def build(spec: dict):
     gsc = _gsc(spec["gsc"], rec, script, problems)
     sm = _sprout(spec["sprout"], rec, bounds, script)
     options = {"log_level": "warning", "hibernation": bool(spec.get("hibernation", False))}
+    if spec.get("hib_form") == "numpy":          # the flag as it comes out of a numpy comparison / a settings table
+        options["hibernation"] = np.bool_(options["hibernation"])
+    elif spec.get("hib_form") == "int":
+        options["hibernation"] = int(options["hibernation"])
     if spec.get("seed") is not None:
         options["random_seed"] = int(spec["seed"])
     if spec.get("bare_options") and not spec.get("hibernation"):
